@@ -3,6 +3,7 @@
 package main
 
 import (
+	"runtime/debug"
 	"flag"
 	"fmt"
 	"os"
@@ -47,6 +48,9 @@ func run(prop string, rule rules.Rule, evTier, mode, repo, verif string, seed in
 	defer func() {
 		if r := recover(); r != nil {
 			fmt.Printf("CHECK-BROKEN: property=%s analysis panic: %v\n", prop, r)
+			if os.Getenv("VERIF_DEBUG") != "" {
+				debug.PrintStack()
+			}
 			code = 2
 		}
 	}()
